@@ -21,6 +21,8 @@
 (*  api = "blocks"  inversion.regularization_matrix / _reduced against     *)
 (*                  every object's own regularization_matrix.              *)
 (*                                                                         *)
+(* chol / logdet_ok are recorded observations of np.linalg.cholesky on the *)
+(* returned matrix and of inversion.log_det_regularization_matrix_term.    *)
 (* Every tolerance below is DERIVED from the rounding of the record (never *)
 (* a chosen epsilon); symmetry of assembled schemes is the raw comparison  *)
 (* H[i][j] == H[j][i] on the floats (field sym).                           *)
@@ -34,7 +36,14 @@ Cl(nm, ok) == IF ok THEN << >> ELSE << nm >>
 IsVec(v, n) == Len(v) = n
 Sq(a) == a * a
 
+\* the schemes the statement requires to be STRICTLY positive definite "so the Cholesky factorizations and log-determinants
+\* used in the evidence exist".  For these every record carries the observation chol: np.linalg.cholesky of the returned
+\* matrix succeeded with positive pivots (a validated observation like raised, for every n; the exact minors stop at n = 4).
+StrictScheme(s) == s \in {"constant", "constant_zeroth", "zeroth", "adaptive"}
+
 \* ---- exact domain --------------------------------------------------------
+\* The pairs of the stated form are the pairs (i, j) with j in N(i) OR i in N(j) of the table the mapper reports: a table that
+\* lists a pair from one side only is not rejected as such -- the matrix must still be symmetric with the stated form.
 ExactParams(r) == [c2q |-> r.c2q, czq |-> r.czq, w2 |-> [k \in DOMAIN r.W |-> r.W[k] * r.W[k]]]
 ExactClauses(r) ==
   IF r.raised THEN << "no-exception" >>
@@ -48,9 +57,9 @@ ExactClauses(r) ==
        IN IF needW /\ ~ IsVec(r.W, n) THEN << "weights-size-is-param-count" >>
           ELSE
             Cl("symmetric", r.sym /\ IsSym(r.Hq, n) /\ IsSym(r.Hr, n))
-            \o Cl("neighbour-table-lists-pairs-from-both-sides", HasRidge(r.scheme) => TableOk(r.N))
             \o Cl("matrix-of-the-stated-quadratic-form", r.Hq = WantQ(r.scheme, P, n, pr))
             \o Cl("ridge-on-the-diagonal-only", r.Hr = WantR(r.scheme, n))
+            \o Cl("cholesky-factorization-exists", StrictScheme(r.scheme) => r.chol)
             \o (IF n <= MaxTernary
                 THEN Cl("positive-semi-definite-on-ternary-vectors",
                         \A x \in Ternary(n) :
@@ -80,7 +89,7 @@ FixedClauses(r) ==
   ELSE LET n == r.n P == Pairs(r.N) IN
        Cl("symmetric", r.sym /\ IsSym(r.Hs, n))
        \o (IF r.scheme = "adaptive"
-           THEN Cl("neighbour-table-lists-pairs-from-both-sides", TableOk(r.N))
+           THEN Cl("cholesky-factorization-exists", r.chol)
                 \o Cl("off-diagonal-is-minus-sum-of-squared-weights-of-the-pair",
                       \A a, b \in 1 .. n : a # b => FixedOff(r, P, a, b))
                 \o Cl("diagonal-is-sum-over-neighbouring-pairs-plus-ridge", \A a \in 1 .. n : FixedDiag(r, P, a))
@@ -128,6 +137,7 @@ SplitClauses(r) ==
            om == [k \in 1 .. n |-> r.W[k] * r.W[k]]
            want == SplitQ(n, r.T, om, r.rows)
        IN Cl("symmetric", r.sym /\ IsSym(r.Hs, n))
+          \o Cl("cholesky-factorization-exists", r.chol)
           \o Cl("sum-over-cross-points-of-weighted-squares",
                 \A a, b \in 1 .. n : Abs(r.Hs[a][b] - want[a][b]) <= SplitTol(r, a, b))
           \o Cl("ridge-is-1e-8-on-the-diagonal-only", r.ridge_ok /\ r.D = Mat(n, LAMBDA a, b : IF a = b THEN -r.k ELSE 0))
@@ -144,6 +154,7 @@ KernelClauses(r) ==
   ELSE IF ~ (r.rows = r.n /\ r.cols = r.n /\ IsSquare(r.Hs, r.n) /\ r.wlen = r.n) THEN << "size-is-param-count" >>
   ELSE LET n == r.n IN
        Cl("symmetric-at-record-resolution", \A a, b \in 1 .. n : Abs(r.Hs[a][b] - r.Hs[b][a]) <= 1)
+       \o Cl("cholesky-factorization-exists", r.chol)
        \o (IF n <= MaxTernary
            THEN Cl("positive-semi-definite-on-ternary-vectors",
                    \A x \in Ternary(n) : LET l1 == SumOver(1 .. n, LAMBDA k : Abs(x[k]))
@@ -177,6 +188,8 @@ BlocksClauses(r) ==
                \o Cl("reduced-size-is-regularised-param-count", IsSquare(r.Rq, Pr) /\ IsSquare(r.Rr, Pr))
                \o Cl("reduced-is-regularised-blocks-in-object-order",
                      r.Rq = ReducedDef(oq, ps, regs) /\ r.Rr = ReducedDef(orr, ps, regs))
+               \o Cl("cholesky-factorization-of-reduced-matrix-exists", r.chol)
+               \o Cl("log-determinant-term-exists", r.logdet_ok)
 
 Clauses(r) ==
   CASE r.api = "exact" -> ExactClauses(r)
@@ -197,7 +210,9 @@ Want(r) ==
   ELSE << >>
 
 \* signature of the failing input class: call site (scheme) and mesh class
+HasTable(r) == r.api \in {"exact", "fixed"} /\ ~ r.raised /\ ~ r.offlattice
 Sig(r) == r.api \o ":" \o r.scheme \o ":" \o r.mesh
+          \o (IF HasTable(r) /\ ~ TableOk(r.N) THEN ":OneSidedNeighbourTable" ELSE "")
 
 TraceInit == i = 1 /\ inst = Blank /\ phase = "trace" /\ out = << >>
 TraceNext ==
